@@ -108,6 +108,10 @@ class StructCase:
         owned = [f"{self.cm(i)}: {{go({i})}}" for i in range(1, self.n + 1) if self.ms[i - 1] == "gowned"]
         ref = [f"{self.cm(i)}: {{gr({i})}}" for i in range(1, self.n + 1) if self.ms[i - 1] == "gref"]
         both = []
+        if c["sgm"] == "ded" and c["sg"]:
+            dflt = ", ".join(f"{self.sgleaf(j)}: {{gy({j})}}" for j in range(1, c["sg"] + 1))
+            ded = ", ".join(f"{self.sgleaf(j)}: {{gx({j})}}" for j in range(1, c["sg"] + 1))
+            return f"#[ghosts({dflt})] #[ghosts(D| {ded})] #[ghosts(DX| {ded})]"
         for j in range(1, c["sg"] + 1):
             if c["sgm"] == "both" and not owned and not ref:
                 both.append(f"{self.sgleaf(j)}: {{gx({j})}}")
